@@ -57,6 +57,17 @@ def judge_records(ctx, dec, rinsts, origin, note="", skip_branches=False):
             if len(d[2]) != n_expected:
                 ctx.disagreement({"origin": origin, "listing": ri.raw + "\n"},
                                  f"{note}{len(d[2])} operands in the stream {list(d[2])}, {n_expected} in the line {ri.raw!r}")
+                continue
+            # operand by operand: every operand that is itself in a listed form has its normal form, whatever shape its neighbours have
+            for k, (got, want_k) in enumerate(zip(d[2], ri.ops_norm)):
+                if want_k is None or not ri.ops_att:
+                    continue
+                ctx.event("operands_judged_next_to_unspecified_ones")
+                ok = got == want_k or (want_k.startswith("0x") and ri.ops_att[k] == want_k and got == want_k[2:].lstrip("0") and got != "")
+                if not ok:
+                    ctx.disagreement({"origin": origin, "listing": ri.raw + "\n"},
+                                     f"{note}operand {k} is {got!r}, its normal form is {want_k!r} (line {ri.raw!r}; the other operands are outside the listed forms)")
+                    break
 
 
 RANGE_RULE = "config:\n  valid_addr_range:\n    min: '0'\n    max: 'ffffffffffffffff'\npattern:\n  - zzzzzz\n"
@@ -134,7 +145,10 @@ def run_shard(ctx):
         a0 = insts[-1].addr + insts[-1].nbytes
         for k, (m, ops) in enumerate([("mov", ["$0xFF", "%eax"]), ("cmp", ["$0xAB", "%al"]), ("push", ["$0xDEADBEEF"]), ("mov", ["$0x0A", "0x1C(%rsp)"]),
                                       ("and", ["$-0x10", "%rsp"]), ("mov", ["$0xff", "%eax"]), ("(bad)", ["0x4e(%rsi)"]), ("(bad)", ["%st(1)"]), ("(bad)", []),
-                                      ("(bad)", ["$0x10", "%rax"])]):
+                                      ("(bad)", ["$0x10", "%rax"]), ("call", ["0x180157700"]), ("jmp", ["0x0"]), ("jne", ["0x10"]), ("call", ["0"]), ("jmp", ["0x0"]),
+                                      ("lods", ["%ds:(%rsi)", "%al"]), ("scas", ["%es:(%rdi)", "%rax"]), ("outsb", ["%ds:(%rsi)", "(%dx)"]), ("lods", ["%ds:(%rsi)", "%eax"]),
+                                      ("vgetmantpd", ["$0x4", "{sae}", "%zmm1", "%zmm2"]), ("vrndscalesd", ["$0x3", "{sae}", "%xmm1", "%xmm2", "%xmm3"]),
+                                      ("vaddps", ["{rn-sae}", "%zmm1", "%zmm2", "%zmm3"]), ("mov", ["%fs:0x28", "%rax"]), ("mov", ["$0x10", "%gs:0x0(%rax)"])]):
             insts.append(L.SInst(a0 + 8 * k, m, ops, None, None, 5))
         judge_listing(ctx, ws, L.render(insts, ctx.rng), "syn" if ctx.rng.random() < 0.7 else "syn-crlf")
 
